@@ -122,6 +122,28 @@ def consistency_case(case, fail):
                 break
         if np.asarray(r['error']).any() and np.asarray(r['correction']).any():
             nt_count += 1
+    # ... also for the rarest draws a trial can meet: a generator that hands
+    # out the smallest variate and variates just around the channel's
+    # cumulative boundaries (the distance random draws never probe)
+    from checks.c07_noise_model import StubRNG
+    cums = sorted({float(c_) for q in range(min(n, 4)) for c_ in
+                   np.cumsum([tab['I'][q], tab['X'][q], tab['Y'][q], tab['Z'][q]])[:3]})
+    for seq in ([0.0], [c_ - 1e-9 for c_ in cums if c_ - 1e-9 > 0],
+                [c_ + 1e-9 for c_ in cums if c_ + 1e-9 < 1]):
+        if not seq:
+            continue
+        stub = StubRNG(seq)
+        r = run_once(code, em, dec, p, rng=stub)
+        if stub.calls == 0:
+            break           # (the sampler does not draw one variate per qubit)
+        e_ = np.asarray(r['error']).astype(int)
+        for q in range(n):
+            s_ = 'IXZY'[e_[q] + 2 * e_[n + q]]
+            if tab[s_][q] <= 0:
+                fail('trial_error_in_support',
+                     f'variates {seq[:3]}: qubit {q} carries {s_}, which has probability '
+                     f'{tab[s_][q]} under r={case["direction"]}, p={p}')
+                break
     # schedules
     sched = case['schedule']
     total = sum(sched)
@@ -331,6 +353,10 @@ def consistency_cases(draw, max_total=60):
     case['rng_kind'] = draw(st.sampled_from(['generator', 'generator', 'randomstate', 'module']))
     if draw(st.integers(0, 3)) == 0:
         case['decoder_rate'] = draw(st.sampled_from([0.02, 0.1, 0.3]))
+        if draw(st.booleans()):
+            # (with the decoder's prior set apart, the end points of the rate
+            # range are legitimate physical rates)
+            case['error_rate'] = draw(st.sampled_from([0.0, 1.0, 1.0, 0.4]))
     return case
 
 
